@@ -40,7 +40,8 @@ Definition ordered (ms : list member) (fwd : bool) := if fwd then ms else rev ms
 Definition chain_obs (ms : list ((N * list file * str) * bool)) (qs folders : list str) : list (list (list N)) :=
   let c := mk_chain ms in
   [map (fun q => code (chain_get (ordered c chain_get_forward) q)) qs]
-  ++ map (fun f => flat_map (fun x => [fst x; snd (snd x)]) (chain_walk_mode chain_dedup_mode chain_relmode chain_dedup_ops (ordered c chain_walk_forward) f)) folders.
+  ++ map (fun f => flat_map (fun x => [fst x; snd (snd x)]) (chain_walk_mode chain_dedup_mode chain_relmode chain_dedup_ops (ordered c chain_walk_forward) f)) folders
+  ++ map (fun f => flat_map (fun x => [fst x; snd (snd x)]) (chain_walk_repeat chain_relmode (ordered c chain_walk_forward) f)) folders.
 '''
 
 INSTANCE_THEOREM = '''Import ListNotations.
@@ -281,7 +282,7 @@ def _files_lit(files) -> str:
 
 
 def corr_backends(ck: Ck, root: str) -> None:
-    n = ck.budget(50, 600)
+    n = ck.budget(50, 400)
     cases = []
     for i in range(n):
         rng = ck.rng
@@ -385,7 +386,7 @@ def corr_backends(ck: Ck, root: str) -> None:
 
 def corr_chain(ck: Ck, root: str) -> None:
     from srctools.filesys import FileSystemChain
-    n = ck.budget(60, 600)
+    n = ck.budget(60, 400)
     cases = []
     for i in range(n):
         rng = ck.rng
@@ -436,6 +437,12 @@ def corr_chain(ck: Ck, root: str) -> None:
                     with fl.open_bin() as fh:
                         w += [coq_str(fl.path), coq_bytes(fh.read())]
                 walks.append(w)
+            for f in folders:       # walk_folder_repeat: every member's listing, in member order
+                w = []
+                for fl in ch.walk_folder_repeat(f):
+                    with fl.open_bin() as fh:
+                        w += [coq_str(fl.path), coq_bytes(fh.read())]
+                walks.append(w)
             ms_lit = coq_list(
                 f'(({BACKENDS.index(kind)}, {_files_lit(builts[j].vpk_order if kind == "vpk" else sets[j])}, {coq_str(pfx)}), {"true" if prio else "false"})'
                 for kind, j, pfx, prio in members)
@@ -444,7 +451,7 @@ def corr_chain(ck: Ck, root: str) -> None:
                           {'members(kind,set,prefix,priority)': members, 'sets': [[a for a, _ in s] for s in sets], 'queries': qs,
                            'folders': folders, 'impl_get': [None if g is None else g.decode() for g in gets]}))
             ck.count('corr_chain_cases')
-            ck.count('corr_chain_observations', len(qs) + len(folders))
+            ck.count('corr_chain_observations', len(qs) + 2 * len(folders))
             ck.hist('corr_chain_members', len(members))
             if len(members) > 1 and any(g is not None for g in gets):
                 ck.seen(('corrchain', tuple(members), tuple(tuple(a for a, _ in s) for s in sets), tuple(qs)))
@@ -474,7 +481,7 @@ def corr_chain(ck: Ck, root: str) -> None:
     bad.sort()
     ck.obligation('correspondence:chain', not bad,
                   f'{len(cases)} chains (1-4 members over Virtual/Zip/VPK, prefixes, priority flags): generated model vs '
-                  f'FileSystemChain _get_file / walk_folder: {len(bad)} disagreements')
+                  f'FileSystemChain _get_file / walk_folder / walk_folder_repeat: {len(bad)} disagreements')
     if bad:
         ck.tie_broken.append('correspondence chain (SM/FsChain.v chain_get/chain_walk vs srctools.filesys.FileSystemChain)')
         ck.extra['chain_disagreement'] = min((cases[i][1] for i in bad), key=lambda d: len(repr(d)))
@@ -628,6 +635,51 @@ def check_backends(root: str, files, rng: random.Random, stats=None) -> list[tup
     return out
 
 
+# ------------------------------------------------------------------------------------------------ oracle: non-ASCII letter case
+NONASCII_SETS = [
+    [('Straße/Größe.txt', b'1'), ('Straße/b.txt', b'2'), ('ÉCOLE/élève.vmt', b'3'), ('top.txt', b'4')],
+    [('ΣΊΣΥΦΟΣ/ς.txt', b'1'), ('İstanbul/ı.txt', b'2')],
+    [('ǅ/ǆ.txt', b'1'), ('ﬁle/ﬂ.txt', b'2')],
+]
+
+
+def check_nonascii(root: str, files, rng: random.Random, stats=None) -> list[tuple[str, str, dict]]:
+    """Letter case beyond ASCII (str.casefold: 'ß' = 'ss' = 'SS', final sigma, ligatures): the in-memory and zip
+    backends must agree with the reference; VPK cannot hold such names (ASCII only), the directory backend is exact-case."""
+    out: list[tuple[str, str, dict]] = []
+    bt = Built(root, files, ['virtual', 'zip', 'raw'])
+    fj = [(a, b.decode()) for a, b in files]
+    try:
+        sm = spec_map(files)
+        for nm, b in files:
+            for q in dict.fromkeys([nm, nm.upper(), nm.lower(), nm.casefold(), nm.swapcase(), _recase(rng, nm), nm.upper().replace('/', '\\')]):
+                for name in ('virtual', 'zip'):
+                    ex, got, op = impl_lookup(bt.fs[name], q)
+                    if stats is not None:
+                        stats('lookup_observations', 3)
+                    want = {x for _, x in sm[fold(q)]} if fold(q) in sm else {None}
+                    if got not in want or op not in want or ex is not (None not in want):
+                        out.append((f'lookup-{name}-nonascii-case-variant', f'{name}: stored {nm!r} queried as {q!r}: exists={ex!r} get={got!r} open={op!r}',
+                                    {'op': 'nonascii', 'files': fj}))
+            ex, got, op = impl_lookup(bt.fs['raw'], nm)
+            if got != b:
+                out.append(('lookup-raw-nonascii-exact', f'raw: {nm!r}: exists={ex!r} get={got!r}', {'op': 'nonascii', 'files': fj}))
+        dirs = sorted({nm.split('/')[0] for nm, _ in files if '/' in nm})
+        for d in dirs:
+            for f in dict.fromkeys([d, d.upper(), d.lower(), d.casefold(), d.upper() + '/']):
+                exp = sorted(k for k in sm if spec_inside(f, k))
+                for name in ('virtual', 'zip'):
+                    w = impl_walk(bt.fs[name], f)
+                    if stats is not None:
+                        stats('walk_observations', 1)
+                    if isinstance(w, str) or sorted(fold(p) for p in w) != exp:
+                        out.append((f'walk-{name}-nonascii-case', f'{name}.walk_folder({f!r}) listed {w}, expected (folded) {exp}',
+                                    {'op': 'nonascii', 'files': fj}))
+    finally:
+        bt.close()
+    return out
+
+
 # ------------------------------------------------------------------------------------------------ oracle: chains
 def check_chain(root: str, sets, members, rng: random.Random, stats=None) -> list[tuple[str, str, dict]]:
     """members: [(backend kind, set index, prefix, priority)]. Reference computed from the file sets only."""
@@ -736,6 +788,41 @@ def check_chain(root: str, sets, members, rng: random.Random, stats=None) -> lis
                 continue
             if stats is not None:
                 stats('chain_walk_observations', 1)
+            # walk_folder_repeat: every member's own listing in member order; the de-duplicated walk keeps, for every
+            # name, the first of those
+            try:
+                rep_listed = []
+                for fl in ch.walk_folder_repeat(folder):
+                    with fl.open_bin() as fh:
+                        rep_listed.append((fl.path, fh.read()))
+            except Exception as e:      # noqa: BLE001
+                out.append(('chain-walk-repeat-exception', f'chain.walk_folder_repeat({folder!r}) raised {type(e).__name__}: {e}', dict(rep, folder=folder)))
+                rep_listed = None
+            if rep_listed is not None:
+                exp_multi: list[str] = []
+                for kind, j, pfx in order:
+                    p = fold(pfx).rstrip('/')
+                    if kind == 'raw':
+                        pe = pfx.rstrip('/')
+                        fe = ((pe + '/' if pe else '') + folder.rstrip('/')).rstrip('/')
+                        exp_multi += [fold(k[len(pe) + 1:] if pe else k) for k, _ in sets[j] if not fe or k.startswith(fe + '/')]
+                    else:
+                        for fk in sms[j]:
+                            if p and not fk.startswith(p + '/'):
+                                continue
+                            relk = fk[len(p) + 1:] if p else fk
+                            if spec_inside(folder, relk):
+                                exp_multi.append(relk)
+                if sorted(fold(p) for p, _ in rep_listed) != sorted(exp_multi):
+                    out.append(('chain-walk-repeat-wrong-listing', f'chain.walk_folder_repeat({folder!r}) listed {sorted(fold(p) for p, _ in rep_listed)}, '
+                                f'the members hold {sorted(exp_multi)}', dict(rep, folder=folder)))
+                else:
+                    first: dict[str, tuple[str, bytes]] = {}
+                    for p, b in rep_listed:
+                        first.setdefault(fold(p), (p, b))
+                    if listed != list(first.values()):
+                        out.append(('chain-walk-dedup-is-not-first-of-repeat', f'chain.walk_folder({folder!r}) listed {listed}, the first entries of '
+                                    f'walk_folder_repeat are {list(first.values())}', dict(rep, folder=folder)))
             got_keys = [fold(p) for p, _ in listed]
             kinds = sorted({k for k, *_ in members})
             if any(p.startswith('../') or '/../' in p for p, _ in listed):
@@ -820,7 +907,7 @@ def search(ck: Ck, root: str) -> None:
             if key not in found or size < len(repr(found[key][1])):
                 found[key] = (what, rep)
 
-    n = ck.budget(80, 400)
+    n = ck.budget(70, 300)
     for i in range(n):
         files = CORPUS_SETS[i] if i < len(CORPUS_SETS) else gen_files(ck.rng)
         if not files:
@@ -839,10 +926,13 @@ def search(ck: Ck, root: str) -> None:
             small = shrink_files(files, lambda fs, key=key: any(k == key for k, _, _ in check_backends(root, fs, random.Random(seed))))
             v2 = [x for x in check_backends(root, small, random.Random(seed)) if x[0] == key]
             note(v2 or [x for x in v if x[0] == key])
+    for files in NONASCII_SETS:
+        ck.count('file_sets_nonascii')
+        note(check_nonascii(root, files, random.Random(ck.rng.randrange(1 << 30)), stats))
     ck.sample({'file_set': [nm for nm, _ in CORPUS_SETS[0]], 'folder_arguments': folder_candidates(random.Random(1), CORPUS_SETS[0])[:12],
                'query_spellings_of_first': spellings(random.Random(1), CORPUS_SETS[0][0][0])})
     # chains: random members; for small chains every ordering
-    m = ck.budget(80, 500)
+    m = ck.budget(70, 350)
     for i in range(m):
         g = CORPUS_CHAINS[i] if i < len(CORPUS_CHAINS) else gen_chain(ck.rng)
         if g is None:
@@ -952,7 +1042,7 @@ def run(ck: Ck) -> None:
         ck.explain('instance:chain_get_in_member_order')
         ck.explain('instance:chain_priority_inserts_first')
         ck.explain('instance:chain_get_joins_prefix')
-    if any_key('chain-walk-entry-not-from-first-member', 'chain-walk-listed-name-not-found'):
+    if any_key('chain-walk-entry-not-from-first-member', 'chain-walk-listed-name-not-found', 'chain-walk-dedup-is-not-first-of-repeat'):
         ck.explain('instance:chain_dedup_keeps_first_member')
     if any_key('chain-walk-', 'chain-get-', 'walk-virtual-', 'walk-zip-', 'walk-vpk-', 'lookup-virtual-', 'lookup-zip-', 'lookup-vpk-'):
         # the composition theorem needs sound backends, skip-de-duplication and prefix-relative names
@@ -982,6 +1072,10 @@ def replay(data: dict) -> int:
                 if k == data.get('key'):
                     print('REPRODUCED', k, '-', what)
                     break
+        elif r.get('op') == 'nonascii':
+            files = [(a, b.encode()) for a, b in r['files']]
+            for k, what, _ in check_nonascii(root, files, random.Random(data.get('seed', 0))):
+                print('FOUND', k, '-', what)
         elif r.get('op') == 'chain':
             sets = [[(a, b.encode()) for a, b in s] for s in r['sets']]
             members = [tuple(m) for m in r['members']]
